@@ -262,10 +262,16 @@ def oracle_ref(cases, impl, model):
         if i.error:
             if i.error.startswith("panic"):
                 fails.append({"case_index": k, "what": "panic: %s" % i.error})
+            elif i.error.startswith("crash") and "expect_values" in c:
+                fails.append({"case_index": k, "what": "%s: the process died (%s) instead of delivering %s" % (c.get("what", ""), i.error, c["expect_values"]),
+                              "surface": c.get("surface", "")[:1500]})
             elif i.error.startswith("error:compile"):
                 fails.append({"case_index": k, "what": "a program of the documented grammar is rejected by the macros / does not compile: %s"
                               % c.get("compile_error", ""), "surface": c.get("surface", "")[:1500]})
             continue
+        if "expect_values" in c and sorted(a[0][0] for a in i.answers) != sorted(c["expect_values"]):
+            fails.append({"case_index": k, "what": "%s: the answers %s of the finite branches must be delivered, got %s (end %s)" %
+                          (c.get("what", ""), c["expect_values"], [a[0][0] for a in i.answers], i.end), "surface": c.get("surface", "")[:1500]})
         if c.get("no_ref"):
             continue
         ref = reference(c, libdefs)
@@ -290,12 +296,21 @@ def run_compiled(pid, tier, seed, cases, oracle, rule, replay=None, extra=None):
         obj = json.load(open(replay))
         cases = obj.get("cases") or [obj["case"]]
     for c in cases:
-        c["surface"] = "proto_vulcan_query!(|%s| { %s })" % (", ".join(c["qvars"]), ", ".join(S.goal(g) for g in c["body"]))
+        c["surface"] = c["line"] if c.get("interp") else "proto_vulcan_query!(|%s| { %s })" % (", ".join(c["qvars"]), ", ".join(S.goal(g) for g in c["body"]))
     lines = [c["line"] for c in cases]
     p, _, terrs = P.libdefs_path()
     exe = C.build_driver()
     model = [P.Result(m) for m in C._run_lines(exe, lines, C.rundir(pid), "model", 900, env={"OCAMLRUNPARAM": "l=64M", "PV_LIBDEFS": p})]
-    impl = [P.Result(x) for x in S.build_and_run(pid, cases)]
+    # cases marked interp are built through the library API by the harness (goal values reused as Rust values cannot be
+    # written in the surface syntax); all others are compiled from their printed source
+    comp_idx = [k for k, c in enumerate(cases) if not c.get("interp")]
+    int_idx = [k for k, c in enumerate(cases) if c.get("interp")]
+    impl = [None] * len(cases)
+    for k, x in zip(comp_idx, S.build_and_run(pid, [cases[k] for k in comp_idx])):
+        impl[k] = P.Result(x)
+    if int_idx:
+        for k, x in zip(int_idx, C.run_impl(pid + "i", [cases[k]["line"] for k in int_idx])):
+            impl[k] = P.Result(x)
     disagreements = []
     for k, (m, i) in enumerate(zip(model, impl)):
         why = pcheck.compare("exact", m, i)
@@ -305,7 +320,7 @@ def run_compiled(pid, tier, seed, cases, oracle, rule, replay=None, extra=None):
     for f in failures[:3]:
         k = f["case_index"]
         obj = dict(f)
-        obj["case"] = {kk: vv for kk, vv in cases[k].items() if kk in ("line", "qvars", "body", "defs", "surface")}
+        obj["case"] = {kk: vv for kk, vv in cases[k].items() if kk in ("line", "qvars", "body", "defs", "surface", "interp", "expect_answers", "reuse_n", "no_ref", "what")}
         obj["implementation"] = impl[k].raw[:3000]
         obj["model"] = model[k].raw[:3000]
         res.violation(obj)
@@ -344,6 +359,22 @@ def run_c14(tier, seed, replay=None):
             body = [["dfs"] + [SGen(rnd, defs=[MEM, LEN2], allow=["eq", "neq", "conj", "fresh", "cond", "closure", "member", "call", "true"]).goal(list(q), 2, True)]]
         body = fix_closures(body)
         cases.append(mk_case(DEFS, q, body, maxans=12, budget=1500))
+    # a closure-style relation whose body is DIRECTLY its recursive call (and a mutually recursive pair): the closure is the only
+    # suspension point, so as a branch of a disjunction it must leave the other branches their turns
+    spinc = ["def", "spinc", ["params", "x"], "closure", ["call", "spinc", "x"]]
+    ping = ["def", "ping", ["params", "x"], "closure", ["call", "pong", "x"]]
+    pong = ["def", "pong", ["params", "x"], "closure", ["call", "ping", "x"]]
+    for _ in range(max(6, n // 40)):
+        v = rnd.randint(1, 9)
+        silent = rnd.choice([["call", "spinc", "q"], ["call", "ping", "q"], ["fresh", ["z"], ["call", "spinc", "z"]]])
+        branches = [silent, ["eq", "q", v]]
+        if rnd.random() < 0.5:
+            branches.reverse()
+        if rnd.random() < 0.4:
+            branches.append(["eq", "q", v + 10])
+        exp = [str(v)] + ([str(v + 10)] if len(branches) == 3 else [])
+        cases.append(mk_case(DEFS + [spinc, ping, pong], ["q"], [["cond"] + branches], maxans=len(exp), budget=1500, no_ref=True, expect_values=exp,
+                             what="a disjunction with a silently diverging closure-style relation next to finite branches"))
     # operands that are written identically are not therefore the same term: every `_` is a new variable
     for _ in range(n // 6):
         t = rnd.choice(["_", ["ilist", "_", "q"], ["list", "_", 1], ["cons", "_", "_"], ["comp", "Pair", "_", "q"], ["list", "q", "_"],
@@ -499,6 +530,10 @@ def run_c15(tier, seed, replay=None):
     def oracle(cs, impl, model):
         fails = oracle_ref(cs, impl, model)
         for k, c in enumerate(cs):
+            if "expect_answers" in c and not impl[k].error and impl[k].end == "done" and len(impl[k].answers) != c["expect_answers"]:
+                fails.append({"case_index": k, "what": "one closure goal value entered %d times on the same path: every entry re-evaluates the body and draws "
+                              "new variables, so the conjunction has %d answers, not %d" % (c["reuse_n"], c["expect_answers"], len(impl[k].answers))})
+        for k, c in enumerate(cs):
             o = c.get("renamed_of")
             if o is None or impl[k].error or impl[o].error:
                 continue
@@ -506,6 +541,25 @@ def run_c15(tier, seed, replay=None):
                 fails.append({"case_index": k, "what": "consistently renaming the bound variables changed the answers",
                               "original": cs[o].get("surface", ""), "original_answers": impl[o].raw[:1500]})
         return fails
+    # ONE closure goal value (a closure-style relation call, a closure { } block) entered several times on the same path:
+    # each entry re-evaluates the body, so its fresh variables are new each time (built through the API by the harness)
+    draw = ["def", "draw", ["params", "l"], "closure", ["fresh", ["x"], ["lib", "member", "x", "l"]]]
+    drawq = ["def", "drawq", ["params", "l", "o"], "closure", ["fresh", ["x", "y"], ["lib", "member", "x", "l"], ["eq", "o", ["list", "x", "y"]]]]
+    for _ in range(max(12, n // 5)):
+        k = rnd.randint(2, 3)
+        times = rnd.randint(2, 3)
+        vals = ["list"] + rnd.sample([1, 2, 3, 4, 5], k)
+        shape = rnd.random()
+        if shape < 0.4:
+            g = ["call", "draw", vals]
+        elif shape < 0.7:
+            g = ["closure", ["fresh", ["x"], ["lib", "member", "x", vals]]]
+        else:
+            g = ["closure", ["match", vals, ["arm", ["pats", ["ilist", "_", "_"]], ["fresh", ["w"], ["lib", "member", "w", vals]]]]]
+        body = [["reuse", times, g]]
+        if rnd.random() < 0.3:
+            body.append(["eq", "q", 0])
+        cases.append(mk_case([draw, drawq], ["q"], body, maxans=60, budget=6000, interp=True, expect_answers=k ** times, reuse_n=times, no_ref=True))
     return run_compiled("C15", tier, seed, cases, oracle,
         "random programs with nested fresh blocks and pattern arms that reuse names of enclosing scopes (shadowing), the same names in "
         "sibling scopes, and recursive relations whose bodies introduce fresh variables at every unfolding; every program is compiled as "
